@@ -99,7 +99,8 @@ func (e *Engine) VerifyLemma(ax *Axiom) (res *UnitResult) {
 		c.Assume(ihEnv.boolExpr(ih))
 		goal = inner.boolExpr(body)
 	}
-	// earlier axioms and lemmas
+	// earlier axioms and lemmas (to a fixpoint: an axiom may introduce the spec function another one is about)
+	var earlier []*Axiom
 	for _, o := range e.axioms {
 		if o == ax {
 			break
@@ -107,15 +108,31 @@ func (e *Engine) VerifyLemma(ax *Axiom) (res *UnitResult) {
 		if o.Pkg != "" && o.Pkg != ax.Pkg {
 			continue
 		}
-		names := map[string]bool{}
-		collectCalls(o.Expr, names)
-		rel := false
-		for n := range names {
-			if c.HasDecl("spec_" + n) {
-				rel = true
-			}
+		if o.Manual {
+			continue
 		}
-		if rel {
+		earlier = append(earlier, o)
+	}
+	usedAx := map[*Axiom]bool{}
+	for changed := true; changed; {
+		changed = false
+		for _, o := range earlier {
+			if usedAx[o] {
+				continue
+			}
+			names := map[string]bool{}
+			collectCalls(o.Expr, names)
+			rel := false
+			for n := range names {
+				if c.HasDecl("spec_" + n) {
+					rel = true
+				}
+			}
+			if !rel {
+				continue
+			}
+			usedAx[o] = true
+			changed = true
 			kind := "axiom"
 			if o.Lemma {
 				kind = "lemma"
